@@ -64,6 +64,8 @@ fn attempt_on<R: Read + std::io::Seek>(reader: R, idx: usize, pw: Option<&[u8]>,
             match f.read(&mut b) {
                 Ok(0) => return Attempt::Clean(out),
                 Ok(n) => out.extend_from_slice(&b[..n]),
+                // the retryable non-error of the Read contract (std's own loops call again, too)
+                Err(e) if e.kind() == std::io::ErrorKind::Interrupted => {}
                 Err(e) => return Attempt::ReadErr(e.to_string()),
             }
         }
@@ -149,6 +151,36 @@ fn check_cfg(c: &Cfg, seed: u64, flips: bool, st: &mut Stats, order: u64) {
                 case(json!({"buf": b, "chunk": ch})),
                 order,
             ),
+        }
+    }
+    // right password while one underlying I/O call (every index) answers ErrorKind::Interrupted once; callers retry
+    if c.len <= 100 {
+        use crate::sio::inst::{plan, Dev, Inst};
+        for &(b, ch) in &[(0usize, 4096usize), (7, 5)] {
+            let p0 = plan();
+            p0.borrow_mut().record_kinds = false;
+            p0.borrow_mut().chunk = Some(ch);
+            let _ = attempt_on(Inst::new(bytes.clone(), p0.clone()), 1, Some(&c.pw), b);
+            let n = p0.borrow().calls;
+            for k in 0..n {
+                let p = plan();
+                p.borrow_mut().record_kinds = false;
+                p.borrow_mut().chunk = Some(ch);
+                p.borrow_mut().devs.insert(k, Dev::Interrupted);
+                st.evals += 1;
+                match attempt_on(Inst::new(bytes.clone(), p), 1, Some(&c.pw), b) {
+                    Attempt::Clean(x) if x == content => st.class("right-password:content(EINTR retried)"),
+                    // an open that hands the Interrupted to its caller instead of retrying reported an error: accepted
+                    Attempt::OpenErr(_) => st.class("right-password:EINTR-surfaced-at-open"),
+                    Attempt::Panic(p) => st.viol(format!("panic/{}", panic_site(&p)), format!("{what}: {p}"), case(json!({"buf": b, "chunk": ch, "interrupted_call": k})), order),
+                    other => st.viol(
+                        format!("right-password-fails/interrupted-read/AE-{}/m{}", c.version, c.method),
+                        format!("{what}: correct password, caller buffer {b}, underlying reads of at most {ch} bytes, I/O call {k} answers Interrupted once and is retried: {}", match &other { Attempt::Clean(x) => format!("a clean end of file after {} bytes that differ from the original {}", x.len(), content.len()), o => format!("{o:?}") }),
+                        case(json!({"buf": b, "chunk": ch, "interrupted_call": k})),
+                        order,
+                    ),
+                }
+            }
         }
     }
     // no password
